@@ -311,12 +311,12 @@ def check_from_hex(F, rep):
             c = node.get("c")
             if isinstance(c, dict) and "d" in c:
                 calls.append(F.S[c["d"]].split("::")[-1])
-                if node.get("k") == "mcall" and node.get("n") == "parse":
-                    r = node["r"]
+                if (node.get("k") == "mcall" and node.get("n") == "parse") or (node.get("k") == "call" and calls[-1] == "from_str" and node.get("a")):
+                    r = node["r"] if node.get("k") == "mcall" else node["a"][0]   # hex.parse() or Self::from_str(hex): the same strict parser
                     recv_ok = r.get("k") == "path" and isinstance(r.get("res"), dict) and r["res"].get("k") == "local" and r["res"].get("n") == (b["params"][0].get("n") if b.get("params") else None)
             elif node.get("k") not in ("path", "block", "mcall", "call"):
                 other.append("<%s>" % node.get("k"))
-        ok = calls == ["parse"] and recv_ok and not other
+        ok = calls in (["parse"], ["from_str"]) and recv_ok and not other
         rep.ob("HEX-FWD", "from_hex[%s]" % (b["_impl"]["self_s"] if b["_impl"] else b["path"]), ok,
                "calls %s on %s%s" % (calls, "the argument itself" if recv_ok else "something other than the argument", (" " + " ".join(other)) if other else ""), F.loc(b), nontrivial=False)
     rep.floor("from_hex constructors", n, 2)
